@@ -3,6 +3,8 @@ package handler
 // C01 — HTTP integration. Every (method, path) pair wrapped by BreakerHandler is
 // its own breaker. A case drives 1..4 pairs, each with its own script,
 // interleaved in generated chunks:
+// A response may start with 0..2 interim 1xx responses (100/102/103); the FINAL
+// status decides (the harness' own recording writer treats 1xx as net/http does).
 //   benign  statuses below 500 (or no explicit status), plus at most five
 //           statuses >= 500: never answered 503 by the breaker, whatever the
 //           other routes do;
@@ -27,8 +29,38 @@ import (
 func init() { logx.Disable() }
 
 type c01HStep struct {
-	N int `json:"n"` // route index
-	C int `json:"c"` // status written by the handler; 0 = body without WriteHeader
+	N int   `json:"n"`           // route index
+	C int   `json:"c"`           // final status written by the handler; 0 = body without WriteHeader
+	I []int `json:"i,omitempty"` // interim 1xx responses (100/102/103) sent before the final status
+}
+
+// c01Writer models what net/http does with WriteHeader (httptest.ResponseRecorder
+// does not): 1xx codes except 101 are interim responses, the first other code is
+// final, later calls are ignored; the first Write implies 200.
+type c01Writer struct {
+	h       http.Header
+	interim []int
+	code    int
+	body    []byte
+}
+
+func (w *c01Writer) Header() http.Header { return w.h }
+func (w *c01Writer) WriteHeader(code int) {
+	if w.code != 0 {
+		return
+	}
+	if code >= 100 && code <= 199 && code != http.StatusSwitchingProtocols {
+		w.interim = append(w.interim, code)
+		return
+	}
+	w.code = code
+}
+func (w *c01Writer) Write(b []byte) (int, error) {
+	if w.code == 0 {
+		w.code = http.StatusOK
+	}
+	w.body = append(w.body, b...)
+	return len(b), nil
 }
 
 type c01HCase struct {
@@ -38,7 +70,7 @@ type c01HCase struct {
 	Skew  int64      `json:"skew,omitempty"`
 }
 
-func c01HInterleave(rt *rapid.T, scripts [][]int) []c01HStep {
+func c01HInterleave(rt *rapid.T, scripts [][]c01HStep) []c01HStep {
 	pos := make([]int, len(scripts))
 	var steps []c01HStep
 	for {
@@ -54,7 +86,9 @@ func c01HInterleave(rt *rapid.T, scripts [][]int) []c01HStep {
 		n := rapid.SampledFrom(active).Draw(rt, "route")
 		chunk := rapid.SampledFrom([]int{1, 1, 2, 5, 20, 100, 400}).Draw(rt, "chunk")
 		for ; chunk > 0 && pos[n] < len(scripts[n]); chunk-- {
-			steps = append(steps, c01HStep{N: n, C: scripts[n][pos[n]]})
+			st := scripts[n][pos[n]]
+			st.N = n
+			steps = append(steps, st)
 			pos[n]++
 		}
 	}
@@ -63,32 +97,41 @@ func c01HInterleave(rt *rapid.T, scripts [][]int) []c01HStep {
 func c01GenHTTP(rt *rapid.T) c01HCase {
 	c := c01HCase{K: rapid.IntRange(1, 4).Draw(rt, "k")}
 	c.Skew = rapid.Int64Range(0, 1_000_000_000).Draw(rt, "skew")
-	benign := rapid.OneOf(rapid.SampledFrom([]int{0, 200, 204, 301, 400, 401, 404, 429, 498, 499, 499}), rapid.IntRange(100, 499))
+	benign := rapid.OneOf(rapid.SampledFrom([]int{0, 200, 204, 301, 400, 401, 404, 429, 498, 499, 499}), rapid.IntRange(200, 499))
+	interim := func() []int {
+		n := rapid.SampledFrom([]int{0, 0, 0, 1, 1, 2}).Draw(rt, "ni")
+		var out []int
+		for i := 0; i < n; i++ {
+			out = append(out, rapid.SampledFrom([]int{100, 102, 103}).Draw(rt, "interim"))
+		}
+		return out
+	}
+	mk := func(code int) c01HStep { return c01HStep{C: code, I: interim()} }
 	failing := rapid.OneOf(rapid.SampledFrom([]int{500, 500, 500, 501, 502, 503, 504, 599}), rapid.IntRange(500, 599))
-	var scripts [][]int
+	var scripts [][]c01HStep
 	for n := 0; n < c.K; n++ {
 		kind := rapid.SampledFrom([]int{0, 0, 1, 1, 2}).Draw(rt, "kind")
 		c.Kind = append(c.Kind, kind)
-		var s []int
+		var s []c01HStep
 		switch kind {
 		case 0:
 			ln := rapid.IntRange(200, 300).Draw(rt, "n")
 			single := rapid.Bool().Draw(rt, "single")
-			the := benign.Draw(rt, "the")
+			the := mk(benign.Draw(rt, "the"))
 			for i := 0; i < ln; i++ {
 				if single {
 					s = append(s, the)
 				} else {
-					s = append(s, benign.Draw(rt, "code"))
+					s = append(s, mk(benign.Draw(rt, "code")))
 				}
 			}
 			nf := rapid.IntRange(0, 5).Draw(rt, "nfail")
 			for i := 0; i < nf; i++ {
-				s[rapid.IntRange(0, ln-1).Draw(rt, "pos")] = failing.Draw(rt, "f")
+				s[rapid.IntRange(0, ln-1).Draw(rt, "pos")] = mk(failing.Draw(rt, "f"))
 			}
 		case 1:
 			ln := rapid.IntRange(200, 300).Draw(rt, "n")
-			the := failing.Draw(rt, "the")
+			the := mk(failing.Draw(rt, "the"))
 			for i := 0; i < ln; i++ {
 				s = append(s, the)
 			}
@@ -96,9 +139,9 @@ func c01GenHTTP(rt *rapid.T) c01HCase {
 			ln := rapid.IntRange(20, 200).Draw(rt, "n")
 			for i := 0; i < ln; i++ {
 				if rapid.Bool().Draw(rt, "bad") {
-					s = append(s, failing.Draw(rt, "code"))
+					s = append(s, mk(failing.Draw(rt, "code")))
 				} else {
-					s = append(s, benign.Draw(rt, "code"))
+					s = append(s, mk(benign.Draw(rt, "code")))
 				}
 			}
 		}
@@ -120,7 +163,7 @@ func c01InterpHTTP(t *testing.T, c c01HCase) (v kit.Verdict) {
 		}
 		metrics := stat.NewMetrics("c01") // owns an immortal flusher: the bubble is expected to end with a leak
 		ran := make([]int, c.K)
-		code := 0
+		var cur c01HStep
 		handlers := make([]http.Handler, c.K)
 		methods := make([]string, c.K)
 		paths := make([]string, c.K)
@@ -130,27 +173,30 @@ func c01InterpHTTP(t *testing.T, c c01HCase) (v kit.Verdict) {
 			paths[n] = []string{"/c01/a", "/c01/b"}[n/2]
 			handlers[n] = BreakerHandler(methods[n], paths[n], metrics)(http.HandlerFunc(func(w http.ResponseWriter, r *http.Request) {
 				ran[n]++
-				if code != 0 {
-					w.WriteHeader(code)
+				for _, ic := range cur.I {
+					w.WriteHeader(ic)
+				}
+				if cur.C != 0 {
+					w.WriteHeader(cur.C)
 				}
 				_, _ = w.Write([]byte("c01"))
 			}))
 		}
 		for i, st := range c.Steps {
 			n := st.N % c.K
-			code = st.C
+			cur = st
 			if st.C >= 500 {
 				nfail[n]++
 			}
 			calls[n]++
 			before := ran[n]
-			rec := httptest.NewRecorder()
+			rec := &c01Writer{h: http.Header{}}
 			handlers[n].ServeHTTP(rec, httptest.NewRequest(methods[n], "http://localhost"+paths[n], http.NoBody))
-			what := fmt.Sprintf("step %d (%s %s, request %d of that route, handler status %d)", i, methods[n], paths[n], calls[n], st.C)
+			what := fmt.Sprintf("step %d (%s %s, request %d of that route, interim %v, final handler status %d)", i, methods[n], paths[n], calls[n], st.I, st.C)
 			if ran[n] == before {
 				rejected[n]++
-				if rec.Code != http.StatusServiceUnavailable {
-					fail = fmt.Sprintf("%s: handler not run but the response status is %d, want 503", what, rec.Code)
+				if rec.code != http.StatusServiceUnavailable {
+					fail = fmt.Sprintf("%s: handler not run but the response status is %d, want 503", what, rec.code)
 					return
 				}
 				if c.Kind[n] == 0 {
@@ -167,8 +213,8 @@ func c01InterpHTTP(t *testing.T, c c01HCase) (v kit.Verdict) {
 			if want == 0 {
 				want = 200
 			}
-			if rec.Code != want || rec.Body.String() != "c01" {
-				fail = fmt.Sprintf("%s: response %d %q differs from what the handler wrote", what, rec.Code, rec.Body.String())
+			if rec.code != want || string(rec.body) != "c01" || len(rec.interim) != len(st.I) {
+				fail = fmt.Sprintf("%s: response %d %q differs from what the handler wrote", what, rec.code, string(rec.body))
 				return
 			}
 		}
@@ -196,6 +242,9 @@ func c01InterpHTTP(t *testing.T, c c01HCase) (v kit.Verdict) {
 			classes["benign-route-with<=5-failures"] = true
 		case kd == 1 && st.C == 500:
 			classes["failing-route-status-500"] = true
+		}
+		if len(st.I) > 0 {
+			classes[[]string{"benign-route-interim", "failing-route-interim-then-5xx", "mixed-route-interim"}[kd]] = true
 		}
 	}
 	if c.K > 1 {
